@@ -149,7 +149,7 @@ theorem Stage.kept_final (st : Stage f keep a b q vq l A r t Y l' r') (inv : f.I
       have h3 := st.count z
       have h4 := (List.nodup_iff_count.1 nd) z
       have h5 : (handlesList (l' ++ A :: r')).count z ≤ Y.allHandles.count z := by
-        have := (findList?_sublist Y.roots _ st.site.kids).count_le z
+        have := (fs_findList?_sublist Y.roots _ st.site.kids).count_le z
         rw [handles_node, List.count_cons] at this
         unfold Forest.allHandles
         omega
